@@ -246,6 +246,57 @@ def rule_r3(ck, prog, cls, ty, rule='C07.R3'):
                        (fld, m, ' negated' if neg else '', want, ' (for floating types min() is the smallest positive value: a histogram of non-positive values reports it as max)' if m == 'min' and is_float else ''))
 
 
+def _subtree_through_locals(f, idx, depth=0):
+    """node indexes of an expression, following once-initialised locals to their initialisers"""
+    out = []
+    for j in f.subtree(idx):
+        out.append(j)
+        n = f.nodes[j]
+        if n['k'] == 'ref' and n.get('sk') == 'local' and depth < 3:
+            for m in f.nodes:
+                if m['k'] == 'declstmt':
+                    for d in m['decls']:
+                        if d['id'] == n['id'] and d.get('init') is not None and d['init'] >= 0:
+                            out += _subtree_through_locals(f, d['init'], depth + 1)
+    return out
+
+
+def _select_kind(f, idx):
+    """('min' | 'max' | None, [operand idx, operand idx]) for std::min / std::max calls and for the conditional expressions that
+    select the smaller / larger of two operands (a < b ? a : b, b > a ? a : b, ...)"""
+    n = strip_casts(f, idx)
+    hops = 0
+    while n['k'] in ('construct', 'call') and hops < 4 and not (n['k'] == 'call' and strip_targs(n.get('c', '')) in ('std::min', 'std::max')):
+        # conversions into the point's variant type
+        args = [a for a in n.get('args', []) if a is not None and a >= 0]
+        if len(args) != 1:
+            break
+        n = strip_casts(f, args[0])
+        hops += 1
+    if n['k'] == 'call' and strip_targs(n.get('c', '')) in ('std::min', 'std::max') and len(n.get('args', [])) >= 2:
+        return strip_targs(n['c']).split('::')[1], n['args'][:2]
+    if n['k'] == 'cond':
+        c = comparison(f, n['cnd'])
+        if c and c[0] in ('<', '<=', '>', '>='):
+            op, l, r = c
+            a, b = n['a'], n['b']
+            same = lambda x, y: expr_equal_loose(f, x, y)
+            less = op in ('<', '<=')
+            if same(a, l) and same(b, r):
+                return ('min' if less else 'max'), [l, r]
+            if same(a, r) and same(b, l):
+                return ('max' if less else 'min'), [l, r]
+    return None, []
+
+
+def expr_equal_loose(f, x, y):
+    a, b = strip_casts(f, x), strip_casts(f, y)
+    if a['k'] == 'ref' and b['k'] == 'ref':
+        return a.get('id') == b.get('id')
+    from .common import expr_equal
+    return expr_equal(f, x, y)
+
+
 def rule_r4(ck, prog, rule='C07.R4'):
     fs = prog.functions('sdk::metrics::HistogramMerge')
     if not fs:
@@ -255,7 +306,24 @@ def rule_r4(ck, prog, rule='C07.R4'):
         loops = [n for n in f.nodes if n['k'] == 'for']
         ok = len(loops) == 1
         why = 'no single element-wise loop'
-        if ok:
+        tr = [n for n in f.nodes if n['k'] == 'call' and strip_targs(n.get('c', '')) == 'std::transform' and len(n.get('args', [])) == 5]
+        if not loops and len(tr) == 1:
+            # std::transform(a.begin(), a.end(), b.begin(), m.begin(), std::plus<>): the same element-wise sum over the whole range
+            a = tr[0]['args']
+            def rng(i):
+                calls = [f.nodes[j] for j in f.subtree(i) if f.nodes[j]['k'] == 'call' and f.nodes[j].get('obj') is not None]
+                for c_ in calls:
+                    nm = strip_targs(c_.get('c', '')).rsplit('::', 1)[-1]
+                    if nm in ('begin', 'cbegin', 'end', 'cend'):
+                        return access_path(f, c_['obj']), nm
+                return None, None
+            (p0, n0), (p1, n1), (p2, n2), (p3, n3) = rng(a[0]), rng(a[1]), rng(a[2]), rng(a[3])
+            plus = 'std::plus' in (f.nodes[a[4]].get('t') or '') or any('std::plus' in (f.nodes[j].get('t') or '') for j in f.subtree(a[4]))
+            ok = bool(plus) and p0 == p1 and n0 in ('begin', 'cbegin') and n1 in ('end', 'cend') and n2 in ('begin', 'cbegin') and n3 == 'begin' and \
+                {p0, p2} == {('param:' + cur, 'counts_'), ('param:' + dlt, 'counts_')} and p3 == ('param:' + mrg, 'counts_')
+            why = 'std::transform does not add the two count vectors element-wise into the merged one'
+            ck.verdict(ok, rule, f, 'counts-elementwise', tr[0], 'counts added element-wise (std::transform with std::plus over the whole range)' if ok else why)
+        elif ok:
             lp = loops[0]
             c = comparison(f, lp['cnd'])
             bound = [strip_targs(f.nodes[i].get('c', '')).rsplit('::', 1)[-1] for i in f.subtree(c[2])] if c else []
@@ -265,7 +333,8 @@ def rule_r4(ck, prog, rule='C07.R4'):
             early = [n for n in body if n['k'] in ('break', 'return', 'continue')]
             ok = bool(full) and len(plus) == 1 and not early
             why = 'the counts are not added element-wise over the whole index range'
-        ck.verdict(ok, rule, f, 'counts-elementwise', loops[0] if loops else None, 'counts added element-wise over [0,size)' if ok else why)
+        if not (not loops and len(tr) == 1):
+            ck.verdict(ok, rule, f, 'counts-elementwise', loops[0] if loops else None, 'counts added element-wise over [0,size)' if ok else why)
         for fld in ('sum_', 'count_'):
             ws = [n for n in f.nodes if (n['k'] == 'binop' and n['op'] == '=' and access_path(f, n['lhs']) == ('param:' + mrg, fld)) or
                   (n['k'] == 'call' and n.get('op') == '=' and n.get('obj') is not None and access_path(f, n['obj']) == ('param:' + mrg, fld))]
@@ -280,9 +349,11 @@ def rule_r4(ck, prog, rule='C07.R4'):
             ws = [n for n in f.nodes if n['k'] == 'call' and n.get('op') == '=' and n.get('obj') is not None and access_path(f, n['obj']) == ('param:' + mrg, fld)]
             ok = False
             if ws:
-                calls = [strip_targs(f.nodes[i].get('c', '')) for i in f.subtree(ws[0]['args'][0]) if f.nodes[i]['k'] == 'call']
-                lv = leaves(f, ws[0]['args'][0])
-                ok = fn in calls and {cur, dlt} <= {l[1] for l in lv if l[0] == 'param'}
+                kind, ops = _select_kind(f, ws[0]['args'][0])
+                if kind == fn.split('::')[1] and len(ops) == 2:
+                    srcs = [{l[1] for l in leaves(f, o) if l[0] == 'param'} for o in ops]
+                    flds = [any(f.nodes[j]['k'] == 'member' and f.nodes[j]['name'] == fld for j in _subtree_through_locals(f, o)) for o in ops]
+                    ok = all(flds) and sorted(map(sorted, srcs)) == sorted([[cur], [dlt]])
             ck.verdict(ok, rule, f, fld + ':combined', ws[0] if ws else None, '%s = %s(current, delta)' % (fld, fn.split('::')[1]) if ok else 'the merged %s is not %s of both operands' % (fld, fn.split('::')[1]))
     for cls, ty in CLASSES:
         rec = prog.record(cls)
